@@ -5,13 +5,16 @@ import os
 import core
 
 PROP = 'C14'
-LEAN_TARGETS = ['MM.Props.C14', 'MM.Props.ScoreTie', 'MM.Driver.Wire']
+LEAN_TARGETS = ['MM.Props.C14', 'MM.Props.ScoreTie', 'MM.Props.HeapTie', 'MM.Driver.Wire']
 THEOREMS = ['MM.HeapDict.C14_sorted', 'MM.HeapDict.C14_length', 'MM.HeapDict.C14_topk',
             'MM.HeapDict.C14_keys', 'MM.HeapDict.C14_get_pure', 'MM.HeapDict.C14_get_count',
-            'MM.HeapDict.C14_get_prefix', 'MM.HeapDict.C14_get_prefix_idx', 'MM.Search.tie_score_order']
+            'MM.HeapDict.C14_get_prefix', 'MM.HeapDict.C14_get_prefix_idx', 'MM.Search.tie_score_order',
+            'MM.HeapDict.tie_heap_push', 'MM.HeapDict.tie_heap_result', 'MM.HeapDict.tie_heap_init']
 TRUSTED_BASE = [
     'Lean 4.33.0 kernel; axioms propext, Quot.sound (audited per theorem)',
-    'CPython heapq (heappush / heappushpop / nlargest) is abstracted to an ascending list whose head is the heap root',
+    'CPython heapq (heappush / heappushpop / nlargest) is abstracted to an ascending list whose head is the heap root; '
+    'HeapDict.push / get_result / __init__ are regenerated over these primitives from the source on every run (T7) and proved equal '
+    'to the model functions (MM/Props/HeapTie.lean)',
     'correspondence harness harness/props/c14.py and driver lean/drivers/Heap.lean (compare order keys only: ties may be permuted)',
     'hypothesis of the order theorems: items form a strict weak order (NaN-free score tuples)',
 ]
